@@ -102,6 +102,57 @@ pub fn parse(case: &Value) -> Value {
     }
 }
 
+/// case: {"id", "scratch", "cfg": {...}, "mkproj": bool} : save_to_file then from_file;
+/// or {"id", "scratch", "text": .., "dirs": [..]} : from_file on a given document.
+pub fn flat(case: &Value) -> Value {
+    let base = Path::new(case["scratch"].as_str().unwrap());
+    let dir = tempfile::Builder::new().prefix("c19f-").tempdir_in(base).expect("scratch dir");
+    let back = std::env::current_dir().unwrap();
+    std::env::set_current_dir(dir.path()).unwrap();
+    let r = std::panic::catch_unwind(std::panic::AssertUnwindSafe(|| {
+        let mut mk = false;
+        let mut saved: Option<String> = None;
+        if let Some(text) = case["text"].as_str() {
+            for d in case["dirs"].as_array().map(|a| a.to_vec()).unwrap_or_default() {
+                let _ = fs::create_dir_all(d.as_str().unwrap());
+            }
+            fs::write("typegen.json", text.as_bytes()).unwrap();
+        } else {
+            let cfg = config_of(&case["cfg"]);
+            if case["mkproj"].as_bool().unwrap_or(false) {
+                mk = fs::create_dir_all(&cfg.project_path).is_ok();
+            }
+            let s = cfg.save_to_file("typegen.json");
+            saved = if s.is_ok() { fs::read_to_string("typegen.json").ok() } else { None };
+        }
+        let load = match GenerateConfig::from_file("typegen.json") {
+            Ok(c) => json!({"kind": "some", "cfg": config_json(&c)}),
+            Err(e) => json!({"kind": "err", "err": err_kind(&e), "msg": e.to_string()}),
+        };
+        json!({"id": case["id"], "saved_text": saved, "load": load, "mkproj_done": mk})
+    }));
+    std::env::set_current_dir(back).unwrap();
+    match r {
+        Ok(v) => v,
+        Err(e) => std::panic::resume_unwind(e),
+    }
+}
+
+/// `c19 buildrun` in the current directory: the build-script entry point. Its own output
+/// (cargo: directives) goes to stdout; the last line is the verdict.
+fn buildrun() {
+    let r = std::panic::catch_unwind(|| tauri_typegen::BuildSystem::generate_at_build_time().map_err(|e| e.to_string()));
+    match r {
+        Ok(Ok(())) => println!("C19RESULT ok"),
+        Ok(Err(e)) => println!("C19RESULT err {}", e.replace('\n', " ")),
+        Err(_) => println!("C19RESULT panic"),
+    }
+}
+
 fn main() {
-    tt_harness::dispatch(&[("lib", lib), ("parse", parse)]);
+    if std::env::args().nth(1).as_deref() == Some("buildrun") {
+        buildrun();
+        return;
+    }
+    tt_harness::dispatch(&[("lib", lib), ("parse", parse), ("flat", flat)]);
 }
